@@ -705,7 +705,7 @@ var (
 func concurrent(r *vkit.Report) {
 	subs := concSubjects()
 	maxLen := r.Scale(6, 8)
-	reps := r.Scale(20, 40)
+	reps := r.Scale(20, 100)
 	pairsPer := r.Scale(24, 60)
 	triplesPer := r.Scale(10, 30)
 
